@@ -212,3 +212,9 @@ for M in (1, 2):
        unwindset=ML(M + 3, 30) + ['cJSON_Delete:3', 'cJSON_Delete.0:%d' % (M + 2), 'walk:3', 'parse_value:4', 'parse_array:3', 'parse_object:3', 'memcmp.0:5', 'strncmp.0:7'],
        tiers=('thorough',), cost=100, timeout=3600, mem_gb=30, functions=['cJSON_ParseWithLengthOpts', 'parse_value', 'parse_number', 'parse_string', 'parse_array', 'parse_object', 'cJSON_Delete'])
 QM(('C15', 'C16'), 'ptr.index.L4', 'harness/ptr_index.c', defs=['-DL=4'], unwind=8, link=['cJSON.c'], unwindset=ML(8, 20), cost=3, functions=['decode_array_index_from_pointer'])
+
+# ------------------------------------------------------------------ post-processing: the sprintf model has 9 loops; give all of them the largest bound the query asked for
+for _q in QUERIES:
+    _vals = [int(e.split(':')[1]) for e in _q['unwindset'] if e.startswith('vf_sprintf.')]
+    if _vals:
+        _q['unwindset'] = [e for e in _q['unwindset'] if not e.startswith('vf_sprintf.')] + ['vf_sprintf.%d:%d' % (i, max(_vals)) for i in range(10)]
